@@ -5,6 +5,7 @@ import (
 	"go/ast"
 	"go/token"
 	"go/types"
+	"sort"
 	"strings"
 
 	"golang.org/x/tools/go/cfg"
@@ -205,11 +206,14 @@ func wiring(c *core.Ctx, it *interp, wrap, fkey *core.Fn) {
 	}
 	// lookup: node, ok := table[cmd]
 	var lookup *ast.AssignStmt
+	viaHelper := false // the lookup is made by a same-package helper returning (entry, found)
 	if o := objOf(winfo, gmCall.Args[0]); o != nil {
 		ast.Inspect(wrap.Decl.Body, func(n ast.Node) bool {
 			if as, ok := n.(*ast.AssignStmt); ok && len(as.Rhs) == 1 && objOf(winfo, as.Lhs[0]) == o {
 				if _, ok := ast.Unparen(as.Rhs[0]).(*ast.IndexExpr); ok {
 					lookup = as
+				} else if _, _, ok := lookupHelper(c, winfo, as.Rhs[0]); ok && len(as.Lhs) == 2 {
+					lookup, viaHelper = as, true
 				}
 			}
 			return true
@@ -219,7 +223,9 @@ func wiring(c *core.Ctx, it *interp, wrap, fkey *core.Fn) {
 	switch {
 	case lookup == nil:
 		c.Undecidedf("R4.verdict", "HandleFilterKeyWithCommand/unknown-command-unchanged", wrap.Decl.Pos(), "cannot find the table lookup")
-	case objOf(winfo, ast.Unparen(lookup.Rhs[0]).(*ast.IndexExpr).Index) != cmdParam:
+	case viaHelper && func() bool { _, key, _ := lookupHelper(c, winfo, lookup.Rhs[0]); return objOf(winfo, key) != cmdParam }():
+		c.Undecidedf("R4.verdict", "HandleFilterKeyWithCommand/unknown-command-unchanged", lookup.Pos(), "the table is not indexed by the wrapper's command-name parameter itself")
+	case !viaHelper && objOf(winfo, ast.Unparen(lookup.Rhs[0]).(*ast.IndexExpr).Index) != cmdParam:
 		c.Undecidedf("R4.verdict", "HandleFilterKeyWithCommand/unknown-command-unchanged", lookup.Pos(), "the table is not indexed by the wrapper's command-name parameter itself")
 	case len(lookup.Lhs) == 1 && nodeTested(winfo, wrap.Decl.Body, objOf(winfo, lookup.Lhs[0])):
 		c.Undecidedf("R4.verdict", "HandleFilterKeyWithCommand/unknown-command-unchanged", lookup.Pos(), "the lookup has no comma-ok test; cannot interpret the test made on the entry instead")
@@ -230,55 +236,87 @@ func wiring(c *core.Ctx, it *interp, wrap, fkey *core.Fn) {
 		ok, _ := onlyVia(wg, gp, func(f cfgq.Fact) bool {
 			return pat.Expr("_ok").Match(winfo, f.Expr, bd) != nil && f.Val
 		})
+		if !ok { // whatever the spelling of the test: with ok == false no path reaches the interpreter
+			as := &assumption{c: c, info: winfo, pkg: wrap.Obj.Pkg(), body: wrap.Decl.Body, lenOf: func(ast.Expr) (int64, bool) { return 0, false },
+				bools: map[types.Object]bool{objOf(winfo, lookup.Lhs[1]): false}}
+			ok, _ = as.unreachableUnder(wg, gp)
+		}
 		if ok {
 			c.Okf("R4.verdict", "HandleFilterKeyWithCommand/unknown-command-unchanged", lookup.Pos(), "getMatchKeys runs only for commands present in the table")
 		} else {
 			c.Undecidedf("R4.verdict", "HandleFilterKeyWithCommand/unknown-command-unchanged", lookup.Pos(), "cannot see that getMatchKeys runs only when the lookup succeeded")
 		}
 	}
-	bdA := pat.Binds{"_a": wps[1]}
-	okLen, _ := onlyVia(wg, gp, func(f cfgq.Fact) bool {
-		return !f.Val && pat.Expr("len(_a) == 0").Match(winfo, f.Expr, bdA) != nil || f.Val && (pat.Expr("len(_a) != 0").Match(winfo, f.Expr, bdA) != nil || pat.Expr("len(_a) > 0").Match(winfo, f.Expr, bdA) != nil)
-	})
-	if okLen {
+	// an empty argument vector never reaches the interpreter
+	emptyArgv := &assumption{c: c, info: winfo, pkg: wrap.Obj.Pkg(), body: wrap.Decl.Body, bools: map[types.Object]bool{},
+		lenOf: func(e ast.Expr) (int64, bool) { return 0, objOf(winfo, e) == argvParam }}
+	if okLen, _ := emptyArgv.unreachableUnder(wg, gp); okLen {
 		c.Okf("R4.verdict", "HandleFilterKeyWithCommand/empty-argv-unchanged", gmCall.Pos(), "getMatchKeys runs only on a non-empty argument vector")
 	} else {
 		c.Undecidedf("R4.verdict", "HandleFilterKeyWithCommand/empty-argv-unchanged", gmCall.Pos(), "cannot see that an empty argument vector bypasses getMatchKeys (args[first] would be out of range)")
 	}
-	// no list configured => unchanged
-	gate := false
-	core.Inspect(wrap.Decl.Body, func(n ast.Node) bool {
-		ifs, ok := n.(*ast.IfStmt)
-		if !ok {
-			return true
-		}
-		atoms := cfgq.Facts(ifs.Cond, true)
-		lists := 0
-		for _, a := range atoms {
-			if b := pat.Expr("len(_x) == 0").Match(winfo, a.Expr, nil); b != nil && a.Val {
-				if v := core.FieldOf(winfo, b["_x"].(ast.Expr)); v != nil && strings.HasPrefix(v.Name(), "FilterKey") {
-					lists++
-				}
-			}
-		}
-		if lists >= 2 && lists == len(atoms) {
-			for _, s := range ifs.Body.List {
-				if r, ok := s.(*ast.ReturnStmt); ok && len(r.Results) == 2 && objOf(winfo, r.Results[0]) == argvParam {
-					if v, isC := boolConst(winfo, r.Results[1]); isC && !v {
-						gate = true
-					}
-				}
+	// no list configured => unchanged: with both key lists empty the interpreter is
+	// not reached and every reachable return hands back the original vector
+	lists := 0
+	ast.Inspect(wrap.Decl.Body, func(n ast.Node) bool {
+		if e, ok := n.(ast.Expr); ok {
+			if v := core.FieldOf(winfo, e); v != nil && strings.HasPrefix(v.Name(), "FilterKey") {
+				lists++
 			}
 		}
 		return true
 	})
-	if gate {
+	listLen := func(vals map[string]int64, dflt int64) func(e ast.Expr) (int64, bool) {
+		return func(e ast.Expr) (int64, bool) {
+			if v := core.FieldOf(winfo, e); v != nil && strings.HasPrefix(v.Name(), "FilterKey") {
+				if n, ok := vals[v.Name()]; ok {
+					return n, true
+				}
+				return dflt, true
+			}
+			if objOf(winfo, e) == argvParam {
+				return 2, true
+			}
+			return 0, false
+		}
+	}
+	noLists := &assumption{c: c, info: winfo, pkg: wrap.Obj.Pkg(), body: wrap.Decl.Body, bools: map[types.Object]bool{}, lenOf: listLen(nil, 0)}
+	if gate, _ := noLists.unreachableUnder(wg, gp); gate && lists >= 2 {
 		c.Okf("R4.verdict", "HandleFilterKeyWithCommand/no-filter-unchanged", wrap.Decl.Pos(), "with neither key list configured the original vector is returned, not rejected")
 	} else {
 		c.Undecidedf("R4.verdict", "HandleFilterKeyWithCommand/no-filter-unchanged", wrap.Decl.Pos(), "cannot see the early return for an unconfigured key filter")
 	}
+	// one list configured (the other empty), command known, argv non-empty: the
+	// interpreter must run; a path on which every condition is decided by that
+	// assumption and which returns without calling it is a definite bypass
+	if lookup != nil && len(lookup.Lhs) == 2 {
+		listNames := map[string]bool{}
+		ast.Inspect(wrap.Decl.Body, func(n ast.Node) bool {
+			if e, ok := n.(ast.Expr); ok {
+				if v := core.FieldOf(winfo, e); v != nil && strings.HasPrefix(v.Name(), "FilterKey") {
+					listNames[v.Name()] = true
+				}
+			}
+			return true
+		})
+		isRet := func(n ast.Node) bool { _, ok := n.(*ast.ReturnStmt); return ok }
+		isGm := func(n ast.Node) bool { return n == gp.Node() }
+		var names []string
+		for name := range listNames {
+			names = append(names, name)
+		}
+		sort.Strings(names)
+		for _, name := range names {
+			as := &assumption{c: c, info: winfo, pkg: wrap.Obj.Pkg(), body: wrap.Decl.Body,
+				bools: map[types.Object]bool{objOf(winfo, lookup.Lhs[1]): true}, lenOf: listLen(map[string]int64{name: 1}, 0)}
+			w := as.decidedPath(wg, isRet, isGm)
+			c.Check("R4.verdict", "HandleFilterKeyWithCommand/filter-applied/"+name, wrap.Decl.Pos(), w == nil,
+				"with only "+name+" configured, a key-addressed command with arguments is returned without being filtered: keys that do not pass the filter are forwarded", w...)
+		}
+	}
 	// returns
 	wrapperNeg, wrapperKnown := false, false
+	branchConflict := false
 	for _, p := range wg.Points(func(n ast.Node) bool { _, ok := n.(*ast.ReturnStmt); return ok }) {
 		r := p.Node().(*ast.ReturnStmt)
 		key := "HandleFilterKeyWithCommand/returns/rebuilt"
@@ -307,7 +345,27 @@ func wiring(c *core.Ctx, it *interp, wrap, fkey *core.Fn) {
 			wrapperNeg, wrapperKnown = false, true
 			c.Okf("R4.verdict", key, r.Pos(), "returns the rebuilt vector and pass")
 		case pat.Same(winfo, r.Results[0], gmAs.Lhs[0]):
-			c.Undecidedf("R4.verdict", key, r.Pos(), "unrecognised verdict expression %s", c.Src(r.Results[1]))
+			// `if pass { return new, false }; return new, true`: a constant verdict on a branch decided by pass
+			v, isC := boolConst(winfo, r.Results[1])
+			passIs := func(want bool) func(cfgq.Fact) bool {
+				return func(f cfgq.Fact) bool { return pat.Expr("_pass").Match(winfo, f.Expr, bd) != nil && f.Val == want }
+			}
+			whenPass, _ := onlyVia(wg, p, passIs(true))
+			whenNot, _ := onlyVia(wg, p, passIs(false))
+			switch {
+			case isC && whenPass != whenNot:
+				neg := v != whenPass // verdict false when pass  <=>  verdict is !pass
+				if wrapperKnown && neg != wrapperNeg {
+					c.Undecidedf("R4.verdict", key, r.Pos(), "the returns of the wrapper disagree on how the verdict relates to pass")
+					wrapperKnown = false
+					branchConflict = true
+				} else if !branchConflict {
+					wrapperNeg, wrapperKnown = neg, true
+					c.Okf("R4.verdict", key, r.Pos(), "returns the rebuilt vector and the constant %v on the branch where pass is %v", v, whenPass)
+				}
+			default:
+				c.Undecidedf("R4.verdict", key, r.Pos(), "unrecognised verdict expression %s", c.Src(r.Results[1]))
+			}
 		default:
 			c.Undecidedf("R4.verdict", key, r.Pos(), "unrecognised return %s", c.Src(r))
 		}
@@ -568,38 +626,7 @@ func caller(c *core.Ctx, wrap *core.Fn, wrapperNeg, wrapperKnown bool) {
 		return
 	}
 	// where do the forwarded Args come from?
-	src := types.Object(nil)
-	if o := objOf(info, argsExpr); o != nil {
-		ast.Inspect(fn.Decl.Body, func(m ast.Node) bool {
-			switch r := m.(type) {
-			case *ast.RangeStmt:
-				// for _, item := range R { X = append(X, item) }
-				if a, _ := pat.Stmt("_x = append(_x, _item)").Find(info, r.Body, nil); a != nil && objOf(info, a.(*ast.AssignStmt).Lhs[0]) == o {
-					src = objOf(info, r.X)
-				}
-				// for i := range R { X[i] = R[i] }   /   for i, item := range R { X[i] = item }
-				if r.Key != nil {
-					bd := pat.Binds{"_i": r.Key, "_r": r.X}
-					if a, b := pat.Stmt("_x[_i] = _r[_i]").Find(info, r.Body, bd); a != nil && objOf(info, b["_x"].(ast.Expr)) == o {
-						src = objOf(info, r.X)
-					}
-					if r.Value != nil {
-						bd["_v"] = r.Value
-						if a, b := pat.Stmt("_x[_i] = _v").Find(info, r.Body, bd); a != nil && objOf(info, b["_x"].(ast.Expr)) == o {
-							src = objOf(info, r.X)
-						}
-					}
-				}
-			case *ast.ForStmt:
-				// for i := 0; i < len(R); i++ { X[i] = R[i] }
-				if a, b := pat.Stmt("_x[_i] = _r[_i]").Find(info, r.Body, nil); a != nil && objOf(info, b["_x"].(ast.Expr)) == o && r.Cond != nil &&
-					pat.Expr("_i < len(_r)").Match(info, r.Cond, pat.Binds{"_i": b["_i"], "_r": b["_r"]}) != nil {
-					src = objOf(info, b["_r"].(ast.Expr))
-				}
-			}
-			return true
-		})
-	}
+	src := builtFrom(c, info, fn.Decl.Body, argsExpr, 0)
 	switch {
 	case src == newObj:
 		c.Okf("R4.caller", "parseSourceCommand/forwards-returned-vector", fwd.Pos(), "the forwarded arguments are built from the vector returned by the key filter")
@@ -660,4 +687,68 @@ func nodeTested(info *types.Info, body ast.Node, o types.Object) bool {
 		return true
 	})
 	return hit
+}
+
+// lookupHelper: e is a call h(key) of a same-package function that looks key up
+// in a package-level map and returns (entry, found) unchanged; it returns the
+// map and the key argument.
+func lookupHelper(c *core.Ctx, info *types.Info, e ast.Expr) (types.Object, ast.Expr, bool) {
+	call, ok := ast.Unparen(e).(*ast.CallExpr)
+	if !ok || len(call.Args) != 1 {
+		return nil, nil, false
+	}
+	f := core.CalleeFunc(info, call)
+	hf := c.FnOf(f)
+	if f == nil || hf == nil || hf.Decl.Body == nil || f.Type().(*types.Signature).Params().Len() != 1 || f.Type().(*types.Signature).Results().Len() != 2 {
+		return nil, nil, false
+	}
+	hinfo := hf.Pkg.TypesInfo
+	param := types.Object(f.Type().(*types.Signature).Params().At(0))
+	var m types.Object
+	var as *ast.AssignStmt
+	n := 0
+	ast.Inspect(hf.Decl.Body, func(x ast.Node) bool {
+		if ie, ok := x.(*ast.IndexExpr); ok {
+			if v, isVar := core.ObjOf(hinfo, ie.X).(*types.Var); isVar && v.Pkg() != nil && v.Parent() == v.Pkg().Scope() {
+				if _, isMap := v.Type().Underlying().(*types.Map); isMap && objOf(hinfo, ie.Index) == param {
+					m = v
+					n++
+				}
+			}
+		}
+		if a, ok := x.(*ast.AssignStmt); ok && len(a.Lhs) == 2 && len(a.Rhs) == 1 {
+			if _, isIdx := ast.Unparen(a.Rhs[0]).(*ast.IndexExpr); isIdx {
+				as = a
+			}
+		}
+		return true
+	})
+	if n != 1 || m == nil {
+		return nil, nil, false
+	}
+	// every return hands back the two results of that lookup (directly, or the locals holding them)
+	okRet := true
+	rets := 0
+	core.Inspect(hf.Decl.Body, func(x ast.Node) bool {
+		if r, ok := x.(*ast.ReturnStmt); ok {
+			rets++
+			switch {
+			case len(r.Results) == 1:
+				if _, isIdx := ast.Unparen(r.Results[0]).(*ast.IndexExpr); !isIdx {
+					okRet = false
+				}
+			case len(r.Results) == 2 && as != nil:
+				if !pat.Same(hinfo, r.Results[0], as.Lhs[0]) || !pat.Same(hinfo, r.Results[1], as.Lhs[1]) {
+					okRet = false
+				}
+			default:
+				okRet = false
+			}
+		}
+		return true
+	})
+	if !okRet || rets == 0 {
+		return nil, nil, false
+	}
+	return m, call.Args[0], true
 }
